@@ -9,6 +9,8 @@ package main
 // and registry contents are NOT sources, by stated assumption.
 
 import (
+	"fmt"
+	"os"
 	"go/token"
 	"go/types"
 	"strings"
@@ -23,6 +25,7 @@ type Taint struct {
 	allocs map[*ssa.Alloc]bool
 	fields map[string]bool // pkg.Type.Field
 	rets   map[*ssa.Function]map[int]bool
+	wire   map[string]bool
 	changed bool
 }
 
@@ -35,8 +38,10 @@ func untaintedResult(name string) bool {
 		return true // configuration callbacks
 	case strings.HasPrefix(name, "fdo/protocol.TokenService."):
 		return true
-	case strings.HasPrefix(name, "crypto/") && !strings.HasPrefix(name, "crypto/subtle"):
-		return true // crypto results (keys, digests, verdicts) are not attacker-shaped lengths
+	case strings.HasPrefix(name, "crypto/hmac."), strings.HasPrefix(name, "crypto/sha"), strings.HasPrefix(name, "crypto/rand."),
+		strings.HasPrefix(name, "crypto/cipher."), strings.HasPrefix(name, "crypto/aes."), strings.HasPrefix(name, "crypto.Hash."),
+		name == "crypto/ecdsa.Verify", strings.HasPrefix(name, "crypto/rsa.Verify"), strings.HasPrefix(name, "crypto/ecdh."):
+		return true // digests, verdicts, fresh randomness, cipher objects: fixed-size results not shaped by the peer
 	case strings.HasPrefix(name, "hash.Hash."), strings.HasPrefix(name, "time."), strings.HasPrefix(name, "context."),
 		strings.HasPrefix(name, "fmt."), strings.HasPrefix(name, "errors."), strings.HasPrefix(name, "log/slog."), strings.HasPrefix(name, "sync."),
 		strings.HasPrefix(name, "reflect.TypeOf"), strings.HasPrefix(name, "os."), strings.HasPrefix(name, "database/sql."):
@@ -54,6 +59,13 @@ func newTaint(p *Prog, region map[*ssa.Function]bool) *Taint {
 func (t *Taint) mark(v ssa.Value) {
 	if v == nil || t.vals[v] {
 		return
+	}
+	if dbg := os.Getenv("FDOCHECK_DEBUG_TAINT"); dbg != "" {
+		if in, ok := v.(ssa.Instruction); ok && in.Parent() != nil && strings.Contains(t.p.FuncName(in.Parent()), dbg) {
+			fmt.Printf("TAINT %s %s = %s @ %s\n", t.p.FuncName(in.Parent()), v.Name(), v.String(), t.p.instrPos(in))
+		} else if pr, ok := v.(*ssa.Parameter); ok && strings.Contains(t.p.FuncName(pr.Parent()), dbg) {
+			fmt.Printf("TAINT %s param %s\n", t.p.FuncName(pr.Parent()), pr.Name())
+		}
 	}
 	if _, isConst := v.(*ssa.Const); isConst {
 		return
@@ -97,9 +109,31 @@ func (t *Taint) markMem(addr ssa.Value) {
 
 func (t *Taint) memTainted(addr ssa.Value) bool {
 	if a := baseAlloc(addr); a != nil {
-		if t.allocs[a] {
-			return true
+		return t.allocs[a]
+	}
+	// memory reached through a pointer: if the pointer is the (transitive)
+	// result of a call, the pointee is as tainted as that result; field-level
+	// taint applies only to objects of unknown origin (parameters, receivers)
+	for v := addr; v != nil; {
+		switch x := v.(type) {
+		case *ssa.FieldAddr:
+			v = x.X
+			continue
+		case *ssa.IndexAddr:
+			v = x.X
+			continue
+		case *ssa.Slice:
+			v = x.X
+			continue
+		case *ssa.UnOp:
+			if x.Op == token.MUL {
+				v = x.X
+				continue
+			}
+		case *ssa.Call, *ssa.Extract:
+			return t.vals[v]
 		}
+		break
 	}
 	for v := addr; v != nil; {
 		switch x := v.(type) {
@@ -138,11 +172,22 @@ func isNamedType(tt types.Type, name string) bool { return typeShort(tt) == name
 func (t *Taint) solve() {
 	// roots
 	wire := t.wireTypes()
+	t.wire = wire
+	if os.Getenv("FDOCHECK_DEBUG_WIRE") != "" {
+		for k := range wire {
+			if strings.Contains(k, "kex.") {
+				fmt.Println("WIRETYPE", k)
+			}
+		}
+	}
 	for fn := range t.region {
 		for i, prm := range fn.Params {
 			ts := typeShort(prm.Type())
 			if ts == "net/http.Request" || ts == "net/http.Response" {
 				t.mark(prm)
+			}
+			if ts == "io.Reader" && (fn.Name() == "Respond" || fn.Name() == "Decrypt") && fn.Signature.Recv() != nil {
+				t.mark(prm) // request body handed to a responder / ciphertext stream
 			}
 			if fn.Signature.Recv() != nil && wire[typeShort(fn.Signature.Recv().Type())] {
 				switch fn.Name() {
@@ -338,6 +383,9 @@ func (t *Taint) callResultTainted(c *ssa.Call, idx int) bool {
 	if body := t.p.body(cal.Fn); body != nil && t.region[body] {
 		return t.rets[body][idx]
 	}
+	if untaintedResult(cal.Name) {
+		return false
+	}
 	if c.Common().IsInvoke() {
 		// module interface resolved by CHA: any implementation returning taint
 		for _, e := range t.p.CallGraph().out[c.Parent()] {
@@ -345,6 +393,9 @@ func (t *Taint) callResultTainted(c *ssa.Call, idx int) bool {
 				return true
 			}
 		}
+	}
+	if cal.Name == "net/http.Client.Do" {
+		return true
 	}
 	if untaintedResult(cal.Name) {
 		return false
@@ -361,11 +412,19 @@ func (t *Taint) call(fn *ssa.Function, fname string, inCbor bool, call ssa.CallI
 	args := callOperands(c)
 	switch {
 	case decodeSinks[cal.Name]:
-		// decoded object
-		last := c.Args[len(c.Args)-1]
-		t.markMem(stripConv(last))
-		if mi, ok := last.(*ssa.MakeInterface); ok {
-			t.markMem(mi.X)
+		// decoded object: tainted when the bytes / reader / header map decoded from are
+		src := false
+		for _, a := range args[:len(args)-1] {
+			if t.vals[a] {
+				src = true
+			}
+		}
+		if src {
+			last := c.Args[len(c.Args)-1]
+			t.markMem(stripConv(last))
+			if mi, ok := last.(*ssa.MakeInterface); ok {
+				t.markMem(mi.X)
+			}
 		}
 	case cal.Name == "io.ReadFull" || cal.Name == "io.Reader.Read" || cal.Name == "io.ReadAll":
 		// reading from a peer-controlled stream
@@ -381,6 +440,10 @@ func (t *Taint) call(fn *ssa.Function, fname string, inCbor bool, call ssa.CallI
 			t.markMem(c.Args[0])
 		}
 	case cal.Name == "context.Context.Value" && (strings.HasPrefix(fname, "fdo/sqlite.") || strings.Contains(fname, "/token.")):
+		if v, ok := call.(ssa.Value); ok {
+			t.mark(v)
+		}
+	case cal.Name == "net/http.Client.Do":
 		if v, ok := call.(ssa.Value); ok {
 			t.mark(v)
 		}
@@ -403,6 +466,10 @@ func (t *Taint) call(fn *ssa.Function, fname string, inCbor bool, call ssa.CallI
 	} else if c.IsInvoke() {
 		for _, e := range t.p.CallGraph().out[fn] {
 			if e.Site == ssa.Instruction(call) && (e.Kind == "invoke" || e.Kind == "codec") {
+				if n := e.Callee.Name(); (n == "UnmarshalCBOR" || n == "UnmarshalCBORStream" || n == "UnmarshalBinary") &&
+					e.Callee.Signature.Recv() != nil && !t.wire[typeShort(e.Callee.Signature.Recv().Type())] {
+					continue // persistence-only type: never decoded from the wire
+				}
 				pass(e.Callee, args)
 			}
 		}
